@@ -186,7 +186,7 @@ def run(ctx: Ctx) -> None:
         (td / "plugs").mkdir()
         for i, sel in enumerate(sels):
             # prefixes: the built-in one, unused ones of 3 and 4 letters, and ones that merely begin or end like the built-in one
-            prefix = ("FURB", "NEW", "FURB", "FUR", "ABCD", "URB", "FURB", "FURA", "URBX")[i % 9]
+            prefix = ("FURB", "NEW", "FURB", "FUR", "ABCD", "URB", "FURB", "FURA", "URBX", "furb", "Furb", "new", "fURB")[i % 13]
             target = td / "plugs" / f"g{i}.py"
             try:
                 text = real_generate(sel, prefix, target)
@@ -219,7 +219,8 @@ def run(ctx: Ctx) -> None:
             if not m or sorted(x.strip()[:-2] for x in m.group(1).split("|")) != sorted(sel):
                 ctx.report("gen:wrong-pattern", f"the match pattern of the generated check is {m.group(1) if m else None}", {"selection": sel})
             tie_rows.append((sel, prefix, want_id, text))
-            loadable.append((f"plugs.g{i}", sel, prefix, want_id))
+            if re.fullmatch(r"[A-Z]{3,4}", prefix):          # a code can only be named on the command line with such a prefix
+                loadable.append((f"plugs.g{i}", sel, prefix, want_id))
         # ---- tie: the Coq model builds the same text
         if b is not None and b.ok and tie_rows:
             hdr = ("From Lib Require Import Base GenTpl.\nFrom P Require Import GenGenTpl C19.\nOpen Scope list_scope.\nSet Printing Width 100000.\n"
